@@ -155,6 +155,11 @@ func laws04(c case04, domain string) []law04 {
 						// the list addressed by a list-level directive is gone after the first application;
 						// the second application copies the directive element into the result
 						shape = "list-directive-copied-when-target-list-absent"
+						if c.Infer {
+							// with inferred keys the remaining directive element has no "name": the list is not even
+							// recognised as associative any more and is copied as an atomic list
+							shape += "-inferred-keys"
+						}
 					}
 					out = append(out, law04{"idempotent", "C04/idempotent/" + shape,
 						fmt.Sprintf("once: %s twice: %s", jsonText(j1), jsonText(j2))})
